@@ -103,7 +103,7 @@ class Report:
             for v in vs:
                 hit = None
                 for k in known:
-                    if k["monitor"] == v.monitor and k["kind"] == v.kind and k.get("site", "") == v.site:
+                    if k["monitor"] in ("*", v.monitor) and k["kind"] == v.kind and k.get("site", "") == v.site:
                         pred = predicates.get(k.get("predicate"))
                         if pred is not None and pred(v):
                             hit = k
